@@ -1,6 +1,7 @@
 // Helpers for the instrumented operation TUs.  Everything here is a template or inline function
 // and is therefore compiled with the instrumentation of the TU that includes it.
 #pragma once
+#include <limits>
 #include <Eigen/Core>
 #include <Eigen/Sparse>
 #include <optional>
@@ -120,6 +121,15 @@ G* pool_make_elem(In& in, int index) {
     if (n > 0) a *= static_cast<smooth::Scalar<G>>((3.14159265358979323846 - 1e-9) / n);
     return new G(smooth::exp<G>(a));
   }
+  if (index == 8 || index == 9) {
+    // exp of a tangent in the SUBNORMAL range of the scalar type (and, for 9, one subnormal coordinate
+    // next to ordinary ones): results depend on the thread's flush-to-zero / denormals-are-zero mode
+    using S = smooth::Scalar<G>;
+    const S tiny = std::numeric_limits<S>::denorm_min() * static_cast<S>(1 << 12);
+    smooth::Tangent<G> a = index == 8 ? smooth::Tangent<G>(smooth::Tangent<G>::Constant(dof_of<G>(), tiny)) : make_tan<G>(in, 3);
+    a(0) = tiny * static_cast<S>(3);
+    return new G(smooth::exp<G>(a));
+  }
   return new G(make_elem<G>(in, index));
 }
 template<class G>
@@ -140,6 +150,13 @@ smooth::Tangent<G>* pool_make_tan(In& in, int index) {
     auto* a = new smooth::Tangent<G>(make_tan<G>(in, 0));
     const auto n = a->norm();
     if (n > 0) *a *= static_cast<smooth::Scalar<G>>((3.14159265358979323846 - 1e-7) / n);
+    return a;
+  }
+  if (index == 8 || index == 9) {
+    using S = smooth::Scalar<G>;
+    const S tiny = std::numeric_limits<S>::denorm_min() * static_cast<S>(1 << 12);
+    auto* a = index == 8 ? new smooth::Tangent<G>(smooth::Tangent<G>::Constant(dof_of<G>(), tiny)) : new smooth::Tangent<G>(make_tan<G>(in, 3));
+    (*a)(dof_of<G>() - 1) = -tiny * static_cast<S>(5);
     return a;
   }
   return new smooth::Tangent<G>(make_tan<G>(in, index));
